@@ -1081,6 +1081,11 @@ func main() {
 		sessionFlagCorpus(o, scratch)
 		jspellCorpus(o, scratch)
 		refuseMatrix(o, scratch)
+		jstructCorpus(o)
+		pathCorpus(o, scratch)
+		singleCorpus(o, scratch)
+		// the structure-mapping cases draw from their own generator: the streams above stay what they were
+		gs := hc.NewGen(seed*7919 + 17)
 		for i := 0; i < n; i++ {
 			switch i % 20 {
 			case 0, 1, 2:
@@ -1100,6 +1105,7 @@ func main() {
 				}
 			case 7:
 				jdecCase(g, o, scratch)
+				jstructCase(gs, o, scratch)
 			case 8, 9, 10, 16:
 				rtCase(g, o, scratch)
 			case 11:
@@ -1108,6 +1114,7 @@ func main() {
 				tcCase(g, o)
 			case 12:
 				diaCase(g, o, scratch)
+				singleCase(gs, o, scratch)
 			case 13:
 				switch (i / 20) % 4 {
 				case 0:
